@@ -142,6 +142,20 @@ func encodeEncoding(encoding []glyph.ID, glyphNames []int32) ([]byte, error) {
 		}
 		maxGid++
 	}
+	if maxGid > 255 {
+		// All of the glyphs 1..256 are encoded.  Format 0 counts the codes
+		// in one byte and format 1 holds at most 255 ranges: if every glyph
+		// is a range of its own, glyph 256 goes to the supplemental codes.
+		runs := 1
+		for gid := glyph.ID(2); gid <= maxGid; gid++ {
+			if int(codes[gid])-int(codes[gid-1]) != 1 {
+				runs++
+			}
+		}
+		if runs > 255 {
+			maxGid = 255
+		}
+	}
 
 	type suppl struct {
 		code uint8
